@@ -41,6 +41,7 @@ PICK = [
     ('C16', lambda r, d, c: r == 'C16.a' and ('bitmap' in d or 'bit position' in d or 'missing mask' in d or 'validity' in d or 'bitmap' in (c or '')), 'C17.f'),
     ('C03', lambda r, d, c: r in ('C03.b', 'C03.j'), 'C17.c'),
     ('C13', lambda r, d, c: r == 'C13.i', 'C17.f'),
+    ('C03', lambda r, d, c: r == 'C03.e' and 'leaf pages cover' in (c or ''), 'C17.c'),
     ('C01', lambda r, d, c: r == 'C01.n', 'C17.e'),
     ('C13', lambda r, d, c: r == 'C13.a' and ('small-scope' in (c or '') or 'coverage' in (c or '') or 'sentinel' in (c or '')), 'C17.f'),
     ('C12', lambda r, d, c: r == 'C12.a' and ('NaN' in d or 'allow_nan' in d or 'every geometry column' in d or 'key' in (c or '')), 'C17.f'),
@@ -81,10 +82,23 @@ def run(P, R, tier):
 
 
 def zero_trip(P, R):
-    f = P.func('spatialpandas.geometry._algorithms.measures', 'compute_line_length')
+    from rules import C14
     n = 0
-    for outer in [l for l in f.node.body if isinstance(l, ast.For)]:
-        inner = [s for s in outer.body if isinstance(s, ast.For)]
+    fam = []
+    for k_ in C14.measure_kernels(P)['length']:
+        for g in P.reachable([k_], follow_nested=False):
+            if g.mod.name == C14.MEAS and g not in fam:
+                fam.append(g)
+    # (container, statements of the per-part body, its segment loops): the per-part loop of a kernel, or the body of a per-part helper
+    units_ = []
+    for f in fam:
+        outers = [l for l in f.node.body if isinstance(l, ast.For)]
+        nested = [(f, l, [s for s in l.body if isinstance(s, ast.For)]) for l in outers if any(isinstance(s, ast.For) for s in l.body)]
+        if nested:
+            units_ += nested
+        elif outers:
+            units_.append((f, f.node, outers))
+    for f, outer, inner in units_:
         pre = {}
         for s in outer.body:
             if isinstance(s, ast.Assign) and isinstance(s.targets[0], ast.Name) and isinstance(s.value, ast.Subscript) and norm(s.value.value) == f.params[0]:
@@ -95,4 +109,4 @@ def zero_trip(P, R):
             inside = all(any(x is y for l in inner for y in ast.walk(l)) for x in uses)
             R.check(inside, 'C17.b', f, st, f'`{name}` (read before the segment loop) is only used inside that loop: an empty range contributes nothing',
                     f'`{name}` is read from values[start] before the segment loop and used outside it: an empty element picks up a neighbour\'s coordinate')
-    R.floor('C17.b', 'pre-loop reads in compute_line_length', n, 2)
+    R.floor('C17.b', 'pre-loop reads in the length kernels', n, 2)
